@@ -46,6 +46,7 @@ func genC15(r *simrt.RNG, tier string, variant int) Plan {
 				op.Kind = "sub"
 				op.N = Pick(r, []int{3, 50, 400})
 				op.GapNs = int64(1e9)
+				op.Hold = r.Bool(0.4) // the handler returns its channel only after the connection ended
 			default:
 				op.Kind = "rev"
 				op.N = r.Intn(2)
@@ -141,7 +142,7 @@ func runC15(e *Env, p *Plan) {
 	gates := []chan struct{}{}
 	for _, op := range p.Ops {
 		t := w.Register(op)
-		if op.Kind != "sub" {
+		if op.Kind != "sub" || op.Hold {
 			g := make(chan struct{})
 			gates = append(gates, g)
 			t.mu.Lock()
@@ -149,7 +150,7 @@ func runC15(e *Env, p *Plan) {
 			t.mu.Unlock()
 		}
 		w.Start(op, nil)
-		if op.Kind != "sub" {
+		if op.Kind != "sub" || op.Hold {
 			t.mu.Lock()
 			t.Gate = gates[len(gates)-1]
 			t.mu.Unlock()
@@ -223,7 +224,7 @@ func runC15(e *Env, p *Plan) {
 			if kind == "sub" {
 				st := e.Sub(t.ID)
 				st.mu.Lock()
-				open = !st.ProdDone
+				open = !st.ProdDone || runningNow
 				st.mu.Unlock()
 			}
 			if open && ctx.Err() == nil {
